@@ -16,9 +16,10 @@ Driver ops for the Prover model (C02 / C03).
       -> ok cycles=<n> steps=<n> canon=<bool> | undefinedOnWay <q>,<c> | spinoutOnWay | overBudget
          | notCanon | BAD-TAPE
   replay <budget> <lim> <apps> | prog
-                               the VERIFIED whole-run validator `replay` (BB/Model/ValidateTrace.lean,
+                               the VERIFIED whole-run validator `replaySym` (BB/Model/ValidateTrace.lean,
                                theorems BB/Props/C02.lean): <apps> = the applications reported by
-                               the real run, `cycle;state;before;after` joined by '#', tapes with
+                               the real run, `cycle;state;before;after[;times]` joined by '#'
+                               (`times` defaults to 0 = no symbolic fallback), tapes with
                                '_' for ' ', or `-` when there are none
       -> undfnd cycle=<c> slot=<q>,<s> marks=<m> steps=<n> blanks=<q:n,..>
        | spnout cycle=<c> marks=<m> steps=<n> blanks=..
@@ -97,12 +98,15 @@ def handle (op : String) (args : List String) (text : String) : Option String :=
         let parseApp (s : String) : Option AppRec :=
           match s.splitOn ";" with
           | [c, q, b, a] => match Tape.parse (un b), Tape.parse (un a) with
-            | some b, some a => some ⟨c.toNat!, q.toNat!, b, a⟩
+            | some b, some a => some ⟨c.toNat!, q.toNat!, b, a, 0⟩
+            | _, _ => none
+          | [c, q, b, a, tm] => match Tape.parse (un b), Tape.parse (un a) with
+            | some b, some a => some ⟨c.toNat!, q.toNat!, b, a, tm.toNat!⟩
             | _, _ => none
           | _ => none
         let recs := if apps == "-" then [] else (apps.splitOn "#").map parseApp
         if recs.any Option.isNone then "BAD-TAPE" else
-        let (e, bl) := replay p budget.toNat! lim.toNat! (recs.filterMap id)
+        let (e, bl) := replaySym p budget.toNat! lim.toNat! (recs.filterMap id)
         let bls := showBlanks bl.reverse
         match e with
         | .undfnd c (q, s) m n => s!"undfnd cycle={c} slot={q},{s} marks={m} steps={n} blanks={bls}"
